@@ -254,16 +254,63 @@ macro_rules! call_sample_rng {
     }};
 }
 
+/// How the ARGUMENTS are laid out in memory is not part of "the same arguments":
+/// the point slice starts at an even or odd element of its allocation (16-byte
+/// aligned or not) and the edge-data Vec has no, little or much spare capacity,
+/// changing from call to call (a counter reset per scenario, so replay is exact).
+/// The reference execution and the judged execution of one call therefore see
+/// different layouts of equal values.
+static ARG_LAYOUT: std::sync::atomic::AtomicU64 = std::sync::atomic::AtomicU64::new(0);
+pub fn arg_layout_reset(seed: u64) {
+    ARG_LAYOUT.store(seed % 1024, std::sync::atomic::Ordering::SeqCst);
+}
+thread_local! {
+    static LAST_LAYOUT: std::cell::Cell<u64> = const { std::cell::Cell::new(0) };
+    static FORCE_LAYOUT: std::cell::Cell<Option<u64>> = const { std::cell::Cell::new(None) };
+}
+/// layout index of the last call made on this thread
+pub fn last_layout() -> u64 {
+    LAST_LAYOUT.with(|c| c.get())
+}
+/// the next call on this thread uses this layout index (harness self-check: the
+/// plain-f64 twin of a call must see the very same layout)
+pub fn force_layout(k: u64) {
+    FORCE_LAYOUT.with(|c| c.set(Some(k)));
+}
+fn arg_layout<T: Sc, const D: usize>(point: &[u64], ed: &EdgeData) -> (Vec<T>, usize, Vec<(Option<T>, Vector<T, D>)>) {
+    let k = match FORCE_LAYOUT.with(|c| c.take()) {
+        Some(k) => k,
+        None => ARG_LAYOUT.fetch_add(1, std::sync::atomic::Ordering::SeqCst),
+    };
+    LAST_LAYOUT.with(|c| c.set(k));
+    let off = (k % 3 == 1) as usize;
+    let mut buf: Vec<T> = Vec::with_capacity(point.len() + off);
+    if off == 1 {
+        buf.push(T::from_bits(0));
+    }
+    buf.extend(point.iter().map(|&b| T::from_bits(b)));
+    let spare = [0usize, 0, 9, 1, 23][(k % 5) as usize];
+    let edv0 = mk_edge_data::<T, D>(ed);
+    let edv = if spare > 0 {
+        let mut v = Vec::with_capacity(edv0.len() + spare);
+        v.extend(edv0);
+        v
+    } else {
+        edv0
+    };
+    (buf, off, edv)
+}
+
 fn do_sample_x<T: Sc, const D: usize>(
     g: &SampleGenerator<D>,
     point: &[u64],
     ed: &EdgeData,
     st: &Settings,
 ) -> Outcome {
-    let pt: Vec<T> = point.iter().map(|&b| T::from_bits(b)).collect();
-    let edv = mk_edge_data::<T, D>(ed);
+    let (buf, off, edv) = arg_layout::<T, D>(point, ed);
+    let pt = &buf[off..];
     let real = st.to_real();
-    match catch_unwind(AssertUnwindSafe(|| call_sample!(g, &pt, edv, &real))) {
+    match catch_unwind(AssertUnwindSafe(|| call_sample!(g, pt, edv, &real))) {
         Ok(r) => flatten_dbg(r),
         Err(p) => panic_msg(p),
     }
@@ -275,7 +322,7 @@ fn do_sample_rng<T: Sc, const D: usize>(
     ed: &EdgeData,
     st: &Settings,
 ) -> Outcome {
-    let edv = mk_edge_data::<T, D>(ed);
+    let (_, _, edv) = arg_layout::<T, D>(&[], ed);
     let real = st.to_real();
     match catch_unwind(AssertUnwindSafe(|| call_sample_rng!(g, edv, &real, rng))) {
         Ok(r) => flatten_dbg(r),
